@@ -13,20 +13,25 @@ use std::collections::BTreeSet;
 
 const SPELL: u32 = Cat::ArgSpell as u32 | Cat::Quote as u32;
 
-/// 0: alone, 1: `-true -a <P> -o -false`, 2: `( <P> )`, 3: `! <P>`
+/// 0: alone, 1: `-true -a <P> -o -false`, 2: `( <P> )`, 3: `! <P>`; members only: 4: `(<P>)`
+/// (parentheses without inner blanks: the last argument word ends where the `)` starts),
+/// 5: `<P> , -false`
 fn wrap_text(p: &str, wrap: u8) -> String {
     match wrap {
         0 => p.to_string(),
         1 => format!("-true -a {p} -o -false"),
         2 => format!("( {p} )"),
-        _ => format!("! {p}"),
+        3 => format!("! {p}"),
+        4 => format!("({p})"),
+        _ => format!("{p} , -false"),
     }
 }
 fn wrap_tree(e: E, wrap: u8) -> E {
     match wrap {
-        0 | 2 => e,
+        0 | 2 | 4 => e,
         1 => E::or(E::and(E::T(Tst::True), e), E::T(Tst::False)),
-        _ => E::not(e),
+        3 => E::not(e),
+        _ => E::list(e, E::T(Tst::False)),
     }
 }
 
@@ -54,6 +59,10 @@ pub fn judge_member(leaf: &E, choices: &[u16], wrap: u8) -> Verdict {
     let mut ch = Stream::new(choices, SPELL);
     let Some(words) = render::primary_words(leaf, &mut ch) else { return Verdict::Skip("leaf has no text form") };
     let kw = words[0].text.clone();
+    if wrap == 5 && matches!(leaf, E::G(_)) {
+        // the option would be the leading run and ", -false" what is left: not an expression
+        return Verdict::Skip("an option word followed by an operator (leading run, then no expression)");
+    }
     let text = wrap_text(&joined(&words), wrap);
     let (exp_depth, exp_threads, exp_tree) = match leaf {
         E::G(Glob::Depth) => (true, None, wrap_tree(E::T(Tst::True), wrap)),
@@ -436,10 +445,13 @@ pub fn run(ctx: &Ctx) -> Report {
         if let Some(w) = render::primary_words(leaf, &mut render::Canon) {
             kws.insert(w[0].text.clone());
         }
-        for wrap in 0..4u8 {
+        for wrap in 0..6u8 {
             for choices in [vec![], vec![40000u16], vec![0, 40000], vec![25000, 25000, 25000], vec![60000, 60000, 60000, 60000]] {
                 let v = judge_member(leaf, &choices, wrap);
                 st.record(&v, stable_hash(&(leaf, &choices, wrap)), true, || member_json(leaf, &choices, wrap));
+            }
+            if wrap >= 4 {
+                continue;
             }
             for k in 0..22 {
                 for c in corruptions(leaf, k, wrap) {
@@ -559,7 +571,7 @@ pub fn run(ctx: &Ctx) -> Report {
         let mut st = Stats::new();
         poison_parses(40);
         let leaf = prop_oneof![20 => gen::text_leaf(), 1 => Just(E::G(Glob::Depth)), 1 => gen::count_u32().prop_map(|n| E::G(Glob::Threads(n)))];
-        let strat = (leaf.clone(), gen::choice_stream(8), 0u8..4);
+        let strat = (leaf.clone(), gen::choice_stream(8), 0u8..6);
         run_prop(&mut st, ctx.seed, "C05-member", shard as u64, cases / shards as u32, &strat, |(l, c, w)| judge_member(l, c, *w), |(l, c, w)| member_json(l, c, *w));
         let strat = (leaf, 0usize..1000, 0u8..4, 0usize..8).prop_filter_map("no corruption applies", |(l, k, w, pickc)| {
             let cs = corruptions(&l, k, w);
@@ -590,7 +602,7 @@ pub fn run(ctx: &Ctx) -> Report {
 
     Report {
         stats: total,
-        rule: "members: every keyword of the vocabulary (63 words incl. operators/options) with generated arguments of its documented language (signed counts, sizes/times with every unit and the default, type lists, octal modes in 3/4/6 digits, single-clause symbolic modes, bare/quoted words, format strings), alone, as '-true -a P -o -false', '( P )' and '! P' -> parse must be Ok and the tree must equal the node built on the specification side. Non-members: per language a table of junk words, keyword+suffix, missing argument at end of input, junk after a quoted string, a bad format directive, two primaries glued without a blank, unknown words with no keyword prefix -> must be Err (any Ok is a failure: nothing may be partly used). Non-trivial: keyword of a shadowing family, or argument with sign/unit/quote/list/non-canonical spelling, or a non-member with a valid proper prefix. Distinct: by (leaf, spelling choices, embedding) resp. by input text.".into(),
+        rule: "members: every keyword of the vocabulary (63 words incl. operators/options) with generated arguments of its documented language (signed counts, sizes/times with every unit and the default, type lists, octal modes in 3/4/6 digits, single-clause symbolic modes, bare/quoted words, format strings), alone, as '-true -a P -o -false', '( P )', '! P', '(P)' and 'P , -false' -> parse must be Ok and the tree must equal the node built on the specification side. Non-members: per language a table of junk words, keyword+suffix, missing argument at end of input, junk after a quoted string, a bad format directive, two primaries glued without a blank, unknown words with no keyword prefix -> must be Err (any Ok is a failure: nothing may be partly used). Non-trivial: keyword of a shadowing family, or argument with sign/unit/quote/list/non-canonical spelling, or a non-member with a valid proper prefix. Distinct: by (leaf, spelling choices, embedding) resp. by input text.".into(),
         assumptions: vec![
             "glued punctuation ('(-true)', '!-true', '-true,-false') is not asserted either way (the repository's own tests rely on self-delimiting parentheses)".into(),
             "-maxdepth/-mindepth are decided by C13; multi-clause symbolic modes by C08; numeric range by C07".into(),
